@@ -218,7 +218,8 @@ Proof.
       destruct Ey as (-> & -> & -> & ->).
       exists vals, w. split; [reflexivity|]. rewrite app_nil_r. exact Evals.
     + destruct (N.eqb_spec (N.of_nat (rem - n)) 0) as [E|_]; [lia|].
-      destruct (IH _ _ _ _ _ _ _ (Forall_skipn _ size b Hwf) ltac:(lia) Er) as (us' & wm & Hgo & Hrec).
+      assert (Hpos : (0 < rem - n)%nat) by lia.
+      destruct (IH _ _ _ _ _ _ _ (Forall_skipn _ size b Hwf) Hpos Er) as (us' & wm & Hgo & Hrec).
       rewrite Hgo. exists (vals ++ us'), (N.max w wm). split; [reflexivity|].
       rewrite recon_app, Evals. cbn [fst snd]. rewrite Hrec. reflexivity.
 Qed.
@@ -257,7 +258,8 @@ Proof.
       assert (Hwf2 : wf_bytes b2) by (subst b2; now apply Forall_skipn).
       pose proof (dec_mbs_suffix _ _ _ _ _ _ _ _ _ _ _ Em) as Hl3.
       assert (Hl2 : (length b2 <= length b1)%nat) by (subst b2; rewrite skipn_length; lia).
-      destruct (mbs_refines k vpm (wrapZ k mz) Hv8 _ _ _ _ _ _ _ _ Hwf2 ltac:(lia) Em) as (us & wm & Hgo & Hrec).
+      assert (Hpos : (0 < rem)%nat) by lia.
+      destruct (mbs_refines k vpm (wrapZ k mz) Hv8 _ _ _ _ _ _ _ _ Hwf2 Hpos Em) as (us & wm & Hgo & Hrec).
       destruct fg as [|fg]; [lia|].
       cbn [go_dbp_blocks].
       destruct (N.eqb_spec (N.of_nat rem) 0) as [E|_]; [lia|].
@@ -274,7 +276,8 @@ Proof.
           destruct (recon k prev _ _) as [xa pa].
           destruct (dec_mbs k vpm _ ws _ _ pa) as [[[[ya ra] pb] bb]|] eqn:Er; [|discriminate].
           inversion Em; subst. eapply IHw; [exact Er|]. now apply Forall_skipn. }
-      destruct (IH _ _ _ _ _ Eb Hwf3 fg ltac:(lia)) as (wm' & Hgo').
+      assert (Hfg3 : (length b3 <= fg)%nat) by lia.
+      destruct (IH _ _ _ _ _ Eb Hwf3 fg Hfg3) as (wm' & Hgo').
       rewrite Hgo'. cbn [gbind]. eexists. reflexivity.
 Qed.
 
@@ -282,13 +285,107 @@ Qed.
 
 Definition first_ok (k : N) (first : Z) : Prop := k = 32 -> in_sint 32 first.
 
-Lemma to_int64_small u : (0 <= to_int64 u)%Z -> to_int64 u = Z.of_N u.
+Lemma go_uvarint_aux_bound fuel : forall l s acc v r,
+  (fuel <= 10)%nat -> s = 7 * N.of_nat (10 - fuel) -> acc < 2 ^ s -> wf_bytes l ->
+  go_uvarint_aux fuel l s acc = Some (v, r) -> v < 2 ^ 64.
 Proof.
-  unfold to_int64. destruct (N.ltb_spec u (2 ^ 63)); [reflexivity|].
-  intros H. exfalso.
-  assert (u < 2 ^ 64 \/ 2 ^ 64 <= u) as [Hu|Hu] by lia.
-  - change (2 ^ 64)%Z with (Z.of_N (2 ^ 64)) in H. lia.
-  - (* a varint read by Go is below 2^64; without that fact: the value is negative anyway *)
-    change (2 ^ 63) with 9223372036854775808 in *. change (2 ^ 64) with 18446744073709551616 in *.
-    change (2 ^ 64)%Z with 18446744073709551616%Z in H.
-Abort.
+  induction fuel as [|f IH]; intros l s acc v r Hf Hs Hacc Hwf H; cbn [go_uvarint_aux] in H; [discriminate|].
+  destruct l as [|b l']; [discriminate|].
+  assert (Hb : b < 256) by (inversion Hwf; assumption).
+  assert (Hwf' : wf_bytes l') by (inversion Hwf; assumption).
+  assert (Hp : 2 ^ (s + 7) = 128 * 2 ^ s) by (rewrite N.pow_add_r; change (2 ^ 7) with 128; lia).
+  destruct (N.ltb_spec b 128) as [Hb7|Hb7].
+  - destruct (Nat.eqb_spec f 0) as [->|Hf0].
+    + (* the tenth byte: at most 1 *)
+      destruct (N.ltb_spec 1 b) as [|Hb1]; [discriminate|]. cbn [andb] in H. inversion H; subst v r.
+      change (10 - 1)%nat with 9%nat in Hs. change (7 * N.of_nat 9) with 63 in Hs. subst s.
+      change (2 ^ 64) with (2 * 2 ^ 63). nia.
+    + cbn [andb] in H. inversion H; subst v r.
+      assert (Hle : s + 7 <= 63) by lia.
+      assert (Hlt : acc + b * 2 ^ s < 2 ^ (s + 7)) by nia.
+      eapply N.lt_le_trans; [exact Hlt|]. apply N.pow_le_mono_r; lia.
+  - eapply (IH l' (s + 7)); try eassumption; try lia. nia.
+Qed.
+
+(** a varint accepted by binary.Uvarint fits 64 bits *)
+Lemma go_uvarint_bound l v r : wf_bytes l -> go_uvarint l = Some (v, r) -> v < 2 ^ 64.
+Proof.
+  intros Hwf H. apply (go_uvarint_aux_bound 10 l 0 0 v r); [lia|reflexivity|cbn; lia|exact Hwf|exact H].
+Qed.
+
+Lemma to_int64_small u : u < 2 ^ 64 -> (0 <= to_int64 u)%Z -> to_int64 u = Z.of_N u.
+Proof.
+  unfold to_int64. destruct (N.ltb_spec u (2 ^ 63)) as [|Hge]; [reflexivity|].
+  intros Hu Hn. exfalso. rename Hn into H. change (2 ^ 64)%Z with (Z.of_N (2 ^ 64)) in H. lia.
+Qed.
+
+(** what a header accepted by decodeBinaryPackedHeader looks like *)
+Lemma go_header_facts (b : bytes) (bs nmb total first : Z) (s : bytes) :
+  wf_bytes b -> go_dbp_header b = GOk (bs, nmb, total, first, s) ->
+  exists ubs unmb utotal b1 b2 b3,
+    go_uvarint b = Some (ubs, b1) /\ go_uvarint b1 = Some (unmb, b2) /    go_uvarint b2 = Some (utotal, b3) /\ go_varint b3 = Some (first, s) /    bs = Z.of_N ubs /\ nmb = Z.of_N unmb /\ total = Z.of_N utotal /    0 < unmb /\ utotal <= max_int32 /\ Nat.divide 8 (N.to_nat (ubs / unmb)) /\ wf_bytes s.
+Proof.
+  intros Hwf H. unfold go_dbp_header in H.
+  destruct (go_uvarint b) as [[ubs b1]|] eqn:E1; [|discriminate].
+  destruct (go_uvarint b1) as [[unmb b2]|] eqn:E2; [|discriminate].
+  destruct (go_uvarint b2) as [[utotal b3]|] eqn:E3; [|discriminate].
+  destruct (go_varint b3) as [[f s']|] eqn:E4; [|discriminate].
+  pose proof (go_uvarint_wf _ _ _ E1 Hwf) as W1.
+  pose proof (go_uvarint_wf _ _ _ E2 W1) as W2.
+  pose proof (go_uvarint_wf _ _ _ E3 W2) as W3.
+  pose proof (go_varint_wf _ _ _ E4 W3) as W4.
+  pose proof (go_uvarint_bound _ _ _ Hwf E1) as B1.
+  pose proof (go_uvarint_bound _ _ _ W1 E2) as B2.
+  pose proof (go_uvarint_bound _ _ _ W2 E3) as B3.
+  destruct (Z.eqb_spec (to_int64 unmb) 0); [discriminate|].
+  destruct (Z.leb_spec (to_int64 ubs) 0); [discriminate|]. cbn [orb] in H.
+  destruct (Z.eqb_spec (Z.rem (to_int64 ubs) 128) 0); [|discriminate]. cbn [negb] in H.
+  destruct (Z.ltb_spec max_block_size (to_int64 ubs)); [discriminate|].
+  destruct (Z.leb_spec (to_int64 unmb) 0); [discriminate|]. cbn [orb] in H.
+  destruct (Z.eqb_spec (Z.rem (Z.quot (to_int64 ubs) (to_int64 unmb)) 32) 0) as [Hq|]; [|discriminate].
+  cbn [negb] in H.
+  destruct (Z.ltb_spec (to_int64 utotal) 0); [discriminate|].
+  destruct (Z.ltb_spec (Z.of_N max_int32) (to_int64 utotal)); [discriminate|].
+  inversion H; subst bs nmb total first s. clear H.
+  rewrite (to_int64_small ubs B1) in * by lia.
+  rewrite (to_int64_small unmb B2) in * by lia.
+  rewrite (to_int64_small utotal B3) in * by lia.
+  exists ubs, unmb, utotal, b1, b2, b3. repeat split; try assumption; try lia.
+  (* values per mini-block: a multiple of 32, hence of 8 *)
+  rewrite <- N2Z.inj_quot in Hq. change 32%Z with (Z.of_N 32) in Hq. rewrite <- N2Z.inj_rem in Hq.
+  assert (Hq' : (ubs / unmb) mod 32 = 0) by lia.
+  exists (N.to_nat ((ubs / unmb) / 32) * 4)%nat.
+  pose proof (N.div_mod (ubs / unmb) 32 ltac:(discriminate)). lia.
+Qed.
+
+(** Go's decodeInt32 / decodeInt64 return what the specification decoder
+    returns, values and remaining input, on every well-formed byte string
+    accepted by [dec64] whose header Go accepts *)
+Theorem go_dbp_refines k b xs rest h :
+  wf_bytes b -> dec64 k b = Some (xs, rest) ->
+  go_dbp_header b = GOk h -> first_ok k (snd (fst h)) ->
+  go_dbp_dec k b = GOk (xs, rest).
+Proof.
+  intros Hwf Hd Hh Hfirst.
+  destruct h as [[[[bs nmb] total] first] s]. cbn [fst snd] in Hfirst.
+  destruct (go_header_facts _ _ _ _ _ _ Hwf Hh)
+    as (ubs & unmb & utotal & b1 & b2 & b3 & E1 & E2 & E3 & E4 & -> & -> & -> & Hn & Ht & Hv8 & Hws).
+  unfold go_dbp_dec, go_dbp_dec_w. rewrite Hh. cbn [gbind].
+  unfold dec64 in Hd. rewrite E1, E2, E3, E4 in Hd.
+  destruct (N.eqb_spec utotal 0) as [->|Ht0].
+  - inversion Hd; subst. reflexivity.
+  - destruct (Z.eqb_spec (Z.of_N utotal) 0) as [E|_]; [lia|].
+    destruct (N.eqb_spec unmb 0) as [E|_]; [lia|].
+    assert (Hrange : ((k =? 32) && ((first <? - 2 ^ 31) || (2 ^ 31 - 1 <? first))%Z) = false).
+    { destruct (N.eqb_spec k 32) as [Hk|_]; [|reflexivity]. cbn [andb].
+      specialize (Hfirst Hk). unfold in_sint in Hfirst. cbn in Hfirst.
+      destruct (Z.ltb_spec first (- 2 ^ 31)); [lia|]. destruct (Z.ltb_spec (2 ^ 31 - 1) first); [lia|]. reflexivity. }
+    rewrite Hrange.
+    destruct (dec_blocks64 _ _ _ _ _ _ _) as [[ps rest']|] eqn:Eb; [|discriminate].
+    inversion Hd; subst xs rest'. clear Hd.
+    destruct (blocks_refines k _ _ Hv8 _ _ _ _ _ _ Eb Hws (length s) (le_n _)) as (wm & Hgo).
+    rewrite <- N2Z.inj_quot, N2Z.id, !N2Z.id.
+    rewrite !N2Nat.id in Hgo.
+    replace (N.of_nat (N.to_nat utotal - 1)) with (utotal - 1) in Hgo by lia.
+    rewrite Hgo. reflexivity.
+Qed.
